@@ -112,6 +112,25 @@ class Module:
                 cont = s; continue
             cur.blocks[lab].append((s, pending_comment)); pending_comment = None
 
+    def link(self, other):
+        """add the definitions of another module (a dependency crate's IR) that this module only declares.
+        A local (private/internal) symbol defined differently in both modules is recorded as ambiguous: the
+        interpreter refuses to resolve it (Unsupported) instead of picking one."""
+        amb = self.__dict__.setdefault("ambiguous", set())
+        for k, v in other.funcs.items():
+            if k not in self.funcs: self.funcs[k] = v
+            elif self.funcs[k] is not v and (v.local or self.funcs[k].local): amb.add(k)
+        for k, v in other.globals.items():
+            if k not in self.globals: self.globals[k] = v
+            elif self.globals[k] != v: amb.add(k)
+        for k, v in other.types.items():
+            if k not in self.types: self.types[k] = v
+        for k, v in other.aliases.items():
+            if k not in self.aliases: self.aliases[k] = v
+            elif self.aliases[k] != v: amb.add(k)
+        self.decls |= other.decls
+        return self
+
     # ---- sizes
     def sizeof(self, ty):
         ty = ty.strip()
@@ -243,6 +262,7 @@ class Function:
         m = re.search(r'@("[^"]+"|[\w.$]+)\((.*)\)[^()]*\{\s*$', line)
         if not m: raise Unsupported("define syntax: " + line[:120])
         self.mod = mod
+        self.local = bool(re.match(r'define\s+(internal|private)\b', line))
         self.name = m.group(1).strip('"')
         self.params = []; self.param_types = []; self.sret = None
         pre = line[:m.start()]
